@@ -13,7 +13,7 @@ from ..tables import routing as T
 from ..tables import scheduling as TS
 from .C01 import check_literals, mask_root
 
-FLOOR = 20
+FLOOR = 50
 EXPLANATION = (
     "Static comparison normal forms: each constraint comparison reaching a feasibility mask (13 routing env classes, FJSP/JSSP "
     "availability) is matched to its reference literal and must be no tighter than the ground-truth inequality "
@@ -23,22 +23,63 @@ EXPLANATION = (
 RULE = "one obligation per (env class, comparison literal with a stated boundary); violation = comparison strict where equality is feasible, or threshold shifted to the strict side"
 
 
+def extra_rules(ctx: Ctx, env: EnvA, sl, root, lits, bool_cells):
+    """C05.b every conjunctive constraint literal of the mask instantiates a literal of the
+    reference row (the mask imposes nothing beyond the problem definition);
+    C05.c every admitting alternative of the row is present."""
+    from ..envs import leaf_matches, find_literal, show_leaf
+    leaves = nf.boolwalk(root, bool_cells)
+    for l in leaves:
+        if not l.conj or l.reduced or l.sign == 0:
+            continue
+        if l.node.op in ("constfill", "const", "loopvar"):
+            continue
+        matched = [lit.name for lit in lits if leaf_matches(l, lit)[0]]
+        txt = show_leaf(l)
+        ctx.ob("C05.b", f"{env.name}.mask:conjunct:{txt[:60]}", bool(matched), sl.where,
+               (f"`{txt}` instantiates {matched}" if matched else
+                f"the mask requires `{txt}` for every offered action, but no constraint of the problem's reference row has these operands on these sides: "
+                f"an extra or altered constraint can hide feasible actions"),
+               construct=f"{sl.fi.qualname}:extra-conjunct:{','.join(sorted(vg.cells_of(l.node)))}")
+    for lit in lits:
+        if not lit.alt:
+            continue
+        good, elsewhere, rev = find_literal(leaves, lit)
+        ctx.ob("C05.c", f"{env.name}.mask:alternative:{lit.name}", bool(good), sl.where,
+               (f"admitting alternative '{lit.name}' present: {show_leaf(good[0])}" if good else
+                f"admitting alternative '{lit.name}' is missing from the mask: actions it should offer are hidden. {lit.why}"),
+               construct=f"{sl.fi.qualname}:{lit.name}:alternative-missing")
+
+
 def run(ctx: Ctx):
     for cname, (path, family) in T.ENVS.items():
         env = EnvA(ctx.repo, path, cname)
         sl, root = mask_root(env, family)
         ctx.fn(sl.fi)
         check_literals(ctx, "C05", env, sl, root, T.MASK[cname], "mask", "tighter")
-    for cname, path in TS.ENVS.items():
-        env = EnvA(ctx.repo, path, cname)
-        sl, root = mask_root(env, "recompute")
-        ctx.fn(sl.fi)
-        old = T.BOOL_CELLS
-        try:
-            T.BOOL_CELLS = TS.BOOL_CELLS
+        if cname != "MDCPDPEnv":  # its slice-wise in-place refinements have no syntactic column partition (DESIGN App. C2)
+            extra_rules(ctx, env, sl, root, T.MASK[cname], T.BOOL_CELLS)
+    old = T.BOOL_CELLS
+    try:
+        T.BOOL_CELLS = TS.BOOL_CELLS
+        for cname, path in TS.ENVS.items():
+            env = EnvA(ctx.repo, path, cname)
+            sl, root = mask_root(env, "recompute")
+            ctx.fn(sl.fi)
             check_literals(ctx, "C05", env, sl, root, TS.AVAIL, "mask", "tighter")
-        finally:
-            T.BOOL_CELLS = old
+            extra_rules(ctx, env, sl, root, TS.AVAIL, TS.BOOL_CELLS)
+        # FFSP: the mask is written by _update_step_state
+        env = EnvA(ctx.repo, "rl4co/envs/scheduling/ffsp/env.py", "FFSPEnv")
+        sl = env.slot("_update_step_state")
+        if sl is None or sl.cell("action_mask") is None:
+            from ..model import AnalysisError
+            raise AnalysisError("FFSPEnv._update_step_state: action_mask not written")
+        ctx.fn(sl.fi)
+        root = sl.cell("action_mask")
+        check_literals(ctx, "C05", env, sl, root, TS.FFSP, "mask", "tighter")
+        extra_rules(ctx, env, sl, root, TS.FFSP, TS.BOOL_CELLS)
+    finally:
+        T.BOOL_CELLS = old
 
 
 def run_thorough(ctx: Ctx):
